@@ -225,6 +225,15 @@ pub struct N0(pub i64, pub Uid);
 pub static LOADER_FAULTS: Mutex<(usize, BTreeMap<usize, bool>)> = Mutex::new((0, BTreeMap::new()));
 pub fn loader_faults() -> std::sync::MutexGuard<'static, (usize, BTreeMap<usize, bool>)> { LOADER_FAULTS.lock().unwrap_or_else(|e| e.into_inner()) }
 
+/// Log of script-loader invocations `(type, id, nesting depth on the invoking thread)`, in checkpoint order; filled
+/// only while `LOG_LOADERS` is set (engine `fault` maps a checkpoint / read index to the asset being loaded).
+pub static LOG_LOADERS: std::sync::atomic::AtomicBool = std::sync::atomic::AtomicBool::new(false);
+pub static LOADER_LOG: Mutex<Vec<(String, String, usize)>> = Mutex::new(Vec::new());
+pub fn loader_log() -> std::sync::MutexGuard<'static, Vec<(String, String, usize)>> { LOADER_LOG.lock().unwrap_or_else(|e| e.into_inner()) }
+thread_local! { static SCRIPT_DEPTH: std::cell::Cell<usize> = const { std::cell::Cell::new(0) }; }
+struct DepthGuard;
+impl Drop for DepthGuard { fn drop(&mut self) { SCRIPT_DEPTH.with(|d| d.set(d.get().saturating_sub(1))); } }
+
 pub trait Canon: Sized + Send + Sync + 'static {
     fn canon(&self) -> String;
     fn as_int(&self) -> i64;
@@ -350,7 +359,10 @@ fn load_int(c: AnyCache, t: &str, i: &str) -> Result<i64, assets_manager::Error>
     with_compound!(t, T => c.load::<T>(i).map(|h| h.read().as_int()), else unreachable!("type name validated by parse_script"))
 }
 
-pub fn run_script(cache: AnyCache, id: &SharedString) -> Result<i64, BoxedError> {
+pub fn run_script(ty: &'static str, cache: AnyCache, id: &SharedString) -> Result<i64, BoxedError> {
+    let depth = SCRIPT_DEPTH.with(|d| { let v = d.get(); d.set(v + 1); v });
+    let _depth = DepthGuard;
+    if LOG_LOADERS.load(std::sync::atomic::Ordering::Relaxed) { loader_log().push((ty.to_string(), id.to_string(), depth)); }
     // loader-level fault plan (engine `fault`)
     let fault = { let mut f = loader_faults(); let k = f.0; f.0 += 1; f.1.get(&k).copied() };
     match fault { Some(true) => panic!("injected loader panic"), Some(false) => return Err(Box::new(CustomErr("injected"))), None => {} }
@@ -395,10 +407,10 @@ pub fn run_script(cache: AnyCache, id: &SharedString) -> Result<i64, BoxedError>
 }
 
 impl<const K: usize> Compound for S<K> {
-    fn load(cache: AnyCache, id: &SharedString) -> Result<Self, BoxedError> { run_script(cache, id).map(|v| S(v, Uid::new())) }
+    fn load(cache: AnyCache, id: &SharedString) -> Result<Self, BoxedError> { run_script(["S0", "S1", "S2", "S3"][K.min(3)], cache, id).map(|v| S(v, Uid::new())) }
 }
 impl Compound for N0 {
-    fn load(cache: AnyCache, id: &SharedString) -> Result<Self, BoxedError> { run_script(cache, id).map(|v| N0(v, Uid::new())) }
+    fn load(cache: AnyCache, id: &SharedString) -> Result<Self, BoxedError> { run_script("N0", cache, id).map(|v| N0(v, Uid::new())) }
     const HOT_RELOADED: bool = false;
 }
 impl assets_manager::asset::NotHotReloaded for N0 {}
